@@ -2,7 +2,7 @@
 (* Anchors L1 on vectors that do not come from this library: the KAT files *)
 (* of the reference implementations shipped under test/kat.  One vector    *)
 (* per TLC step; exp is what AsconModes computes, obs is the file's value. *)
-EXTENDS AsconModes, Conc, Json, IOUtils, TLC
+EXTENDS ApiSponge, ApiIsap, Conc, Json, IOUtils, TLC
 
 V == ndJsonDeserialize(IOEnv.KATFILE)
 
@@ -20,10 +20,13 @@ Compute(v) ==
     [] v.fn = "prf"      -> Prf(v.k, v.m, Len(v.out))
     [] v.fn = "mac"      -> Mac(v.k, v.m)
     [] v.fn = "prfshort" -> PrfShort(v.k, v.m, Len(v.out))
+    [] v.fn = "isap"     -> IsapEnc(v.v, v.k, v.n, v.ad, v.m)
+    [] v.fn = "hmac"     -> Hmac(v.v, v.k, v.m)
+    [] v.fn = "kmac"     -> Kmac(v.v, v.k, v.m, v.custom, SzOf(Len(v.out)), Len(v.out))
     [] OTHER -> <<"unknown function", v.fn>>
 
 Expected(v) ==
-  CASE v.fn \in {"aead", "siv"} -> v.ct
+  CASE v.fn \in {"aead", "siv", "isap"} -> v.ct
     [] v.fn = "aeaddec" -> <<TRUE, v.m>>
     [] OTHER -> v.out
 
